@@ -1342,6 +1342,67 @@ def _c05_eval(inputs, cache=None):
 
     results.append(result)
     results.append(_eq_clause(evolved, new, 'evolved-vs-new'))
+
+    return outcome
+
+
+def _two_apps_scenarios():
+    """Hand-built projects in which TWO (or three) apps change in one diff: each app's hinted evolution must hold that
+    app's mutations only and resolve that app's change (signature level, made-up app labels)."""
+    from django.db import models
+    from django_evolution.signature import (ProjectSignature, AppSignature, ModelSignature, FieldSignature)
+
+    def project(apps):
+        p = ProjectSignature()
+        for label, model_list in apps:
+            a = AppSignature(label)
+            for mname, fields, ut in model_list:
+                m = ModelSignature(mname, '%s_%s' % (label, mname.lower()), unique_together=ut)
+                m.add_field_sig(FieldSignature('id', models.AutoField, {'primary_key': True}))
+                for fname, ftype, attrs in fields:
+                    m.add_field_sig(FieldSignature(fname, ftype, dict(attrs)))
+                a.add_model_sig(m)
+            p.add_app_sig(a)
+        return p
+    C, I = models.CharField, models.IntegerField
+    yield 'different-models', \
+        project([('lib', [('Book', [('title', C, {'max_length': 50})], [])]),
+                 ('acc', [('Member', [('name', C, {'max_length': 30}), ('age', I, {'null': True})], [])])]), \
+        project([('lib', [('Book', [('title', C, {'max_length': 80}), ('pages', I, {'null': True})], [])]),
+                 ('acc', [('Member', [('name', C, {'max_length': 60})], [])])])
+    yield 'same-model-name', \
+        project([('staff', [('Profile', [('name', C, {'max_length': 50})], [])]),
+                 ('cust', [('Profile', [('name', C, {'max_length': 50})], [])])]), \
+        project([('staff', [('Profile', [('name', C, {'max_length': 100})], [])]),
+                 ('cust', [('Profile', [('name', C, {'max_length': 80})], [])])])
+    yield 'three-apps', \
+        project([('a1', [('M', [('f', C, {'max_length': 5})], [])]), ('a2', [('M', [('f', C, {'max_length': 5})], [])]),
+                 ('a3', [('N', [('g', I, {'null': True})], [])])]), \
+        project([('a1', [('M', [('f', C, {'max_length': 6})], [])]), ('a2', [('M', [('f', C, {'max_length': 7})], [])]),
+                 ('a3', [('N', [], [])])])
+
+
+def _two_apps_eval(name, old, new):
+    from django_evolution.diff import Diff
+    outcome = {'results': [], 'skipped': None, 'nontrivial': True, 'summary': None}
+    hints = {}
+    try:
+        with warnings.catch_warnings():
+            warnings.simplefilter('ignore')
+            evolution = Diff(old, new).evolution()
+        evolved = old.clone()
+        for app_label, app_mutations in evolution.items():
+            hints[app_label] = _hints(app_mutations)
+            _simulate(evolved, app_mutations, app_label=app_label)
+        residual = Diff(evolved, new)
+        ok = bool(residual.is_empty(ignore_apps=False))
+        observed = None if ok else {'hints': hints, 'residual_diff': str(residual)[:600]}
+    except Exception as e:
+        ok, observed = False, {'exception': _exc(e), 'hints': hints}
+    result = {'clause': 'hint-resolves', 'subject': 'two-apps:' + name, 'ok': ok}
+    if not ok:
+        result.update(observed=observed, known_id=None, signature='two apps %s: %s' % (name, str(observed)[:120]))
+    outcome['results'].append(result)
     return outcome
 
 
@@ -1576,6 +1637,10 @@ def suite_C05(tier='quick', seed=0):
                 families[family] in (5, 50) and len(collector.samples) < 3):
             collector.sample(inputs, outcome)
 
+    for name, old_p, new_p in _two_apps_scenarios():
+        families['two-apps'] = families.get('two-apps', 0) + 1
+        collector.add({'kind': 'two-apps', 'name': name}, _two_apps_eval(name, old_p, new_p))
+
     collector.extra['families'] = families
     collector.extra['distinct_signatures'] = len(seen_sigs)
     return collector.finish(
@@ -1591,7 +1656,12 @@ def replay_C05(inputs):
     clause = inputs.pop('clause', None)
     subject = inputs.pop('subject', None)
 
-    if inputs.get('kind') == 'self-clone':
+    if inputs.get('kind') == 'two-apps':
+        results = []
+        for name, old_p, new_p in _two_apps_scenarios():
+            if name == inputs.get('name'):
+                results = _two_apps_eval(name, old_p, new_p)['results']
+    elif inputs.get('kind') == 'self-clone':
         results = _self_clone_clauses(_cache.sig(inputs['spec']), 'sig')
     else:
         results = _c05_eval(inputs)['results']
